@@ -563,6 +563,18 @@ static Slice parse_slice(Toks& tk) {
 static std::string g_extra;   // op-specific extra payload
 static std::string g_result_payload;   // rendering of `result` (what must survive the inputs)
 
+// dtype name of the (first) NumpyArray leaf of a layout, "" when there is none
+static std::string leaf_dtype(const ContentPtr& c, int depth = 0) {
+  if (c.get() == nullptr || depth > 30) return "";
+  Content* p = c.get();
+  if (NumpyArray* x = dynamic_cast<NumpyArray*>(p)) return util::dtype_to_name(x->dtype());
+#define LEAFVIA(CLS) if (CLS* x = dynamic_cast<CLS*>(p)) return leaf_dtype(x->content(), depth + 1);
+  LEAFVIA(ListOffsetArray32) LEAFVIA(ListOffsetArrayU32) LEAFVIA(ListOffsetArray64) LEAFVIA(ListArray32) LEAFVIA(ListArrayU32)
+  LEAFVIA(ListArray64) LEAFVIA(RegularArray) LEAFVIA(IndexedArray32) LEAFVIA(IndexedArrayU32) LEAFVIA(IndexedArray64)
+  LEAFVIA(IndexedOptionArray32) LEAFVIA(IndexedOptionArray64) LEAFVIA(ByteMaskedArray) LEAFVIA(BitMaskedArray) LEAFVIA(UnmaskedArray)
+  return "";
+}
+
 static ContentPtr do_reduce(const std::string& red, const ContentPtr& x, int64_t axis, bool mask, bool keepdims) {
   if (red == "sum") return x.get()->reduce(ReducerSum(), axis, mask, keepdims);
   if (red == "prod") return x.get()->reduce(ReducerProd(), axis, mask, keepdims);
@@ -711,6 +723,7 @@ static std::string run_op(const std::string& op, Toks& tk, ContentPtr& result) {
     bool keep = tk.i64() != 0;
     ContentPtr x = input_layout(tk);
     result = do_reduce(red, x, axis, mask, keep);
+    g_extra = leaf_dtype(result);
   }
   else if (op == "sort" || op == "argsort") {
     int64_t axis = tk.i64();
